@@ -365,6 +365,39 @@ impl<N: Ord + Clone, D> Node<N, D> {
     }
 }
 
+/// Verification hook (only with `--cfg bio_verif`): read-only view of the tree shape.
+#[cfg(bio_verif)]
+impl<N: Clone + Ord, D: Clone> IntervalTree<N, D> {
+    /// Pre-order list of `(start, end, data, max, height, has_left, has_right)`.
+    pub fn verif_shape(&self) -> Vec<(N, N, D, N, i64, bool, bool)> {
+        fn walk<N: Clone + Ord, D: Clone>(
+            n: &Node<N, D>,
+            out: &mut Vec<(N, N, D, N, i64, bool, bool)>,
+        ) {
+            out.push((
+                n.interval.start.clone(),
+                n.interval.end.clone(),
+                n.value.clone(),
+                n.max.clone(),
+                n.height,
+                n.left.is_some(),
+                n.right.is_some(),
+            ));
+            if let Some(ref l) = n.left {
+                walk(l, out);
+            }
+            if let Some(ref r) = n.right {
+                walk(r, out);
+            }
+        }
+        let mut out = Vec::new();
+        if let Some(ref n) = self.root {
+            walk(n, &mut out);
+        }
+        out
+    }
+}
+
 fn swap_interval_data<N: Ord + Clone, D>(node_1: &mut Node<N, D>, node_2: &mut Node<N, D>) {
     mem::swap(&mut node_1.value, &mut node_2.value);
     mem::swap(&mut node_1.interval, &mut node_2.interval);
